@@ -22,11 +22,110 @@ RP = "pynguin.utils.report"
 FM = "pynguin.ga.fitness_metrics"
 
 
+def _same_executions(ctx, repo) -> None:
+    """Tracked coverage values are computed one coverage function after the other and the report reads the
+    last stored results: all of them describe the same executions only if a test case whose fresh result was
+    stored is not executed again by the next computation, i.e. storing the result clears its changed flag."""
+    from sa.engine.cfg import CFG
+
+    COMP = "pynguin.ga.computations"
+    n = 0
+    for qn in ("TestSuiteChromosomeComputation._run_test_suite_chromosome", "TestCaseChromosomeComputation._run_test_case_chromosome"):
+        fn = repo.func(COMP, qn)
+        ctx.analysed(fn)
+        cfg = CFG(fn)
+        stores = [x for x in cfg.nodes if x.kind == "stmt" and x.stmt is not None and isinstance(x.stmt, ast.Expr) and isinstance(x.stmt.value, ast.Call) and last_attr(x.stmt.value) == "set_last_execution_result"]
+        if not stores:
+            raise AnalysisError(f"{qn}: no set_last_execution_result(...) found")
+        for st in stores:
+            recv = norm(st.stmt.value.func.value)
+            clears = {x.id for x in cfg.nodes if x.kind == "stmt" and x.stmt is not None and isinstance(x.stmt, ast.Assign) and norm(x.stmt.targets[0]) == f"{recv}.changed" and norm(x.stmt.value) == "False"}
+            loop = next((a for a in _ancestors(st.stmt) if isinstance(a, ast.For)), None)
+            goals = [cfg.exit] + [x.id for x in cfg.nodes if x.kind == "for" and x.stmt is loop]
+            nxt = [b for b, lab in cfg.succ[st.id] if lab != "exc"]
+            p = cfg.path(nxt, goals, avoid_nodes=clears, labels_excluded=("exc",))
+            n += 1
+            ctx.paths += 1
+            ctx.check("C35.same-executions", st.stmt, p is None, f"{qn}: after `{norm(st.stmt)[:70]}` the flag `{recv}.changed` is not cleared on every path: the test case is executed again by the next computation, so line coverage, branch coverage and the report (which reads the last stored result) describe different executions and disagree for modules whose behaviour depends on earlier calls", what=f"{qn}: stored result clears the changed flag", path=cfg.describe_path(p) if p else None, stmt=f"[{qn.split('.')[-1]}] store -> clear")
+    return n
+
+
+def _ancestors(node):
+    p = parent(node)
+    while p is not None:
+        yield p
+        p = parent(p)
+
+
+def _xml_lines(ctx, repo) -> None:
+    """render_xml_coverage_report interpreted with ElementTree modelled: per line the `hits` attribute says
+    covered exactly when the suite covers something of the line, a line is listed iff it carries anything."""
+    import datetime
+    import types as _types
+
+    fn = repo.func(RP, "render_xml_coverage_report")
+    ctx.analysed(fn)
+
+    def ce(c, e):
+        return _types.SimpleNamespace(covered=c, existing=e)
+
+    # (label, lines, branches, branch-less code objects)
+    cells = [
+        ("executed line without branches", ce(1, 1), ce(0, 0), ce(0, 0)),
+        ("line not executed", ce(0, 1), ce(0, 0), ce(0, 0)),
+        ("executed line, predicate with no outcome decided (raises before)", ce(1, 1), ce(0, 2), ce(0, 0)),
+        ("executed def line of a function never called", ce(1, 1), ce(0, 0), ce(0, 1)),
+        ("executed line, one of two outcomes", ce(1, 1), ce(1, 2), ce(0, 0)),
+        ("line without line metric, branch covered", ce(0, 0), ce(2, 2), ce(0, 0)),
+        ("line without line metric, nothing covered", ce(0, 0), ce(0, 2), ce(0, 1)),
+        ("not relevant (comment)", ce(0, 0), ce(0, 0), ce(0, 0)),
+    ]
+    annotations = [_types.SimpleNamespace(line_no=i + 1, lines=l, branches=b, branchless_code_objects=c, total=ce(l.covered + b.covered + c.covered, l.existing + b.existing + c.existing)) for i, (_lab, l, b, c) in enumerate(cells)]
+    report = _types.SimpleNamespace(module="m", line_coverage=0.5, branch_coverage=0.5, lines=ce(4, 5), branches=ce(3, 8), branchless_code_objects=ce(0, 2), line_annotations=annotations, source=[""] * len(cells))
+    elements = []
+
+    class Node:
+        def __init__(self, tag, attrib):
+            self.tag, self.attrib, self.text = tag, dict(attrib or {}), None
+
+    def element(tag, attrib=None, **kw):
+        node = Node(tag, attrib)
+        elements.append(node)
+        return node
+
+    def sub(parent_, tag, attrib=None, **kw):
+        return element(tag, attrib)
+
+    sink = _types.SimpleNamespace(write=lambda *a, **k: None)
+    path = _types.SimpleNamespace(open=lambda *a, **k: sink)
+    it = peval.Interp(resolver=peval.repo_resolver(repo), native_types=(_types.SimpleNamespace, Node, datetime.datetime, datetime.timezone),
+                      externs={"ET.Element": element, "ET.SubElement": sub, "ET.ElementTree": lambda root: _types.SimpleNamespace(write=lambda *a, **k: None), "ET.indent": lambda *a, **k: None},
+                      consts={"ver.__version__": "0", "datetime.timezone.utc": datetime.timezone.utc, "xml_file": sink})
+    try:
+        it.run_function(fn, [report, path, datetime.datetime(2024, 1, 1)], {}, repo.module(RP))
+    except (peval.Undecided, peval.Raises) as exc:
+        ctx.undecide("C35.xml", fn, f"per-line interpretation: {exc}")
+        return
+    lines = {int(e.attrib["number"]): e.attrib for e in elements if e.tag == "line"}
+    for i, (label, l, b, c) in enumerate(cells):
+        no = i + 1
+        listed = no in lines
+        want_listed = l.existing + b.existing + c.existing > 0
+        if not want_listed or not listed:
+            ctx.check("C35.xml", fn, listed == want_listed, f"[{label}] the line is {'listed' if listed else 'missing'} in the XML report although it carries {'something' if want_listed else 'nothing'}", what=f"[{label}] listed iff relevant", stmt=f"[line] {label}")
+            continue
+        want_hit = "1" if (l.covered + b.covered + c.covered) > 0 else "0"
+        got = lines[no].get("hits")
+        ctx.check("C35.xml", fn, got == want_hit, f"[{label}] hits={got!r}, but the suite covers {l.covered} line / {b.covered} branch / {c.covered} code-object entries of it: the per-line entries no longer say covered exactly when the suite covers the line (and disagree with lines-covered)", what=f"[{label}] hits={want_hit}", stmt=f"[line] {label}")
+
+
 def check(ctx) -> None:
     repo = ctx.repo
     ctx.rule("C35.annotation", "ABSINT: the per-line branch annotation equals (code-object entry, predicate entry, their sum) for every membership combination of the line; entry / annotation addition is component-wise", floor=7)
     ctx.rule("C35.totals", "the report totals are sums over the values of the same per-line dictionaries that feed the annotations; every source line gets an annotation", floor=5)
     ctx.rule("C35.same-metric", "branch / line coverage of the report are compute_branch_coverage / compute_line_coverage on the trace merged from the last result of every test case", floor=4)
+    ctx.rule("C35.same-executions", "MUST-PASS: in both runners every path from storing a fresh execution result to the end of the iteration clears that chromosome's changed flag - the coverage functions and the report read the same executions", floor=2)
+    _same_executions(ctx, repo)
     ctx.rule("C35.factors", "per predicate 2 existing branches and one covered per zero distance VALUE; per branch-less code object 1 existing, covered iff executed - the factors of compute_branch_coverage", floor=5)
     ctx.rule("C35.source", "the source shown is read from the configured module at report time; no function on the report path is memoised", floor=2)
     ctx.rule("C35.xml", "the Cobertura totals add branch and branch-less entries and take the rates from the report", floor=4)
@@ -147,6 +246,7 @@ def check(ctx) -> None:
     ctx.check("C35.source", gcr, not cached, f"report functions {cached} are memoised: a later report for a module of the same name reuses data of the earlier one", what="no memoised function in the report module")
 
     # ------------------------------------------------------------------ C35.xml
+    _xml_lines(ctx, repo)
     x = repo.func(RP, "render_xml_coverage_report")
     ctx.analysed(x)
     env = {norm(n.targets[0]): norm(n.value) for n in own_nodes(x) if isinstance(n, ast.Assign) and isinstance(n.targets[0], ast.Name)}
